@@ -215,6 +215,7 @@ theorem cplO_step (js : JState) (os : OState) (e : Ev) (h : CplO js os)
   | force a t x ok => exact h
   | it u r => exact h
   | err u => exact h
+  | exec u r => exact h
   | crash w => exact h
   | other l => exact h
 
@@ -260,6 +261,7 @@ theorem oscript_step (os : OState) (e : Ev) (he : e.inLoop = true) (hc : ∀ u, 
   | force a t x ok => exact ⟨rfl, rfl, fun v => ⟨rfl, rfl, id⟩⟩
   | it u r => exact ⟨rfl, rfl, fun v => ⟨rfl, rfl, id⟩⟩
   | err u => exact ⟨rfl, rfl, fun v => ⟨rfl, rfl, id⟩⟩
+  | exec u r => exact ⟨rfl, rfl, fun v => ⟨rfl, rfl, id⟩⟩
   | _ => cases he
 
 theorem oscript_fold (l : List Ev) (hl : ∀ e ∈ l, Ev.inLoop e = true) (hc : ∀ u, ∀ e ∈ l, Ev.isCmdOf u e = false)
